@@ -29,6 +29,12 @@
 //   PX0 <id> lo= hi= eps0= | gx | fx | miu0
 //   PX <id> kind=<1|2> t= miu= mdn= | xn | xn1 | gn | gn1 | Gn | Gn1 | miu'
 //   NS <id> seq=<1|2> lambda= r=<sqrt(1+4 lambda^2)> reset=<0|1> | z | m_x | m_y | lambda' | m_x' | lambda after the iteration
+//   stage WHOLE (a complete mirrored run for the composed model of C03_Whole_Defs.v; short runs only):
+//   W <id> solver= n= max= maxev= calls0= cost= miu0= eps0= tol= mdn= m1= .. ep= amb=<0|1>
+//        | x0 | y:gy:fy;...  (every evaluation in order, the first one at x0) | alphas;... (after every solve of the curve search)
+//        | keep;...  (one per append / moveto: surviving rows of delete_largest or -) | r,... (sqrt witnesses of the momentum steps)
+//        | exit=<done|budget> sstatus= iters= calls= sfx= size= | bundle.x() | state.x() | centres of the serious steps, newest first
+//        | status@miu@pass/pass/..;...  (per outer iteration: status returned by search(), proximity.miu() at its end, the passes as in LI)
 //   KSTALE <id> ...                                                 (defect candidate: RQB moved to an unvetted point, see notes/C03.md)
 //   FAIL <id> <clause> ...                                          (direct property oracle, independent of the model)
 //   KFAIL <id> cancellation <clause> ...                            (certificate / converged-not-optimal failure in a run whose
@@ -397,6 +403,9 @@ bool same_row(const bundle_t& a, tensor_size_t i, const bundle_t& b, tensor_size
 // applies moveto/append to the real bundle after observing, on a copy, which rows survive delete_largest.
 // returns false (and applies nothing) when the operation would leave size() == capacity() (the library's own
 // assert(m_size < capacity()) would fail and the next append would write behind the buffers).
+std::string g_last_keep; // stage WHOLE: the surviving rows observed by the last apply_append ("-": delete_largest did not fire)
+int         g_whole_lines = 0, g_whole_cap = 60; // per family (first letter of the case id)
+std::map<char, int> g_whole_count;
 bool apply_append(const std::string& sid, bundle_t& b, bool serious, const vector_t& y, const vector_t& gy, double fy)
 {
     bundle_t c1 = b;
@@ -423,6 +432,7 @@ bool apply_append(const std::string& sid, bundle_t& b, bool serious, const vecto
         C.hist["removed_by_delete_largest=" + std::to_string(std::min<tensor_size_t>(c1.size() - kept, 9))]++;
     }
     C.inactive_deleted += b.size() - c1.size();
+    g_last_keep = fired ? (keep.empty() ? std::string("e") : keep) : std::string("-");
     if (c2.size() + 1 >= b.capacity())
     {
         std::printf("B %s GUARD size=%d inactive_kept=%d after_delete_largest=%d capacity=%d fired=%d E=%s\n", sid.c_str(),
@@ -900,6 +910,18 @@ solver_state_t mirror_loop(const std::string& sid, const std::string& sname, con
     std::vector<pass_t> passes;
     bool                in_search = false;
     const auto          n         = x0.size();
+    // ---- stage WHOLE: everything the composed model needs to replay this run from its oracle answers ----
+    std::vector<std::string> w_evs, w_qps, w_kps, w_sqs, w_log, w_its;
+    bool                     w_amb = false, w_bad = false;
+    double                   h_tL = 0.0, h_tR = 0.0;
+    const double             w_tol = epsilon * std::sqrt(static_cast<double>(n));
+    const auto w_ev = [&](const vector_t& yy, const vector_t& gg, double ff)
+    {
+        if (!std::isfinite(ff)) w_bad = true;
+        w_evs.push_back(hv(yy) + ":" + hv(gg) + ":" + vh::hexf(ff));
+    };
+    const auto w_near = [&](double a, double b, double mag) { return std::fabs(a - b) <= 1e-7 * mag + 1e-300; };
+    w_ev(state.x(), state.gx(), state.fx());
     g_eval_hook = [&](const double* yp, const double* gp, double fy)
     {
         if (!in_search) return;
@@ -921,6 +943,38 @@ solver_state_t mirror_loop(const std::string& sid, const std::string& sname, con
         p.gdot   = gy.dot(y - x);
         p.sdot   = s.dot(y - x);
         passes.push_back(p);
+        if (w_evs.size() <= 90)
+        {
+            w_ev(y, gy, fy);
+            w_qps.push_back(hv(bundle.m_alphas.data(), bundle.m_size));
+            // a decision taken by this pass within 1e-7 (relative) of its threshold: the exact-rational replay may take the other side
+            const double ss = s.lpNorm<2>();
+            if (passes.size() == 1) { h_tL = 0.0; h_tR = std::numeric_limits<double>::infinity(); }
+            if (p.finite)
+            {
+                if (w_near(p.e, w_tol, w_tol) || w_near(ss, w_tol, w_tol)) w_amb = true;
+                if (!(p.econv && p.sconv))
+                {
+                    const double m1d = csearch.m_m1 * p.delta;
+                    if (w_near(p.fx - p.fy, m1d, std::fabs(p.fx) + std::fabs(p.fy) + std::fabs(m1d))) w_amb = true;
+                    if (p.fx - p.fy >= m1d)
+                    {
+                        h_tL = p.t;
+                        if (w_near(p.gdot, -csearch.m_m2 * p.delta, std::fabs(p.gdot) + std::fabs(csearch.m_m2 * p.delta))) w_amb = true;
+                        if (!(p.gdot >= -csearch.m_m2 * p.delta) && !std::isfinite(h_tR) && !p.sconv &&
+                            w_near(p.sdot, -csearch.m_m4 * p.delta, std::fabs(p.sdot) + std::fabs(csearch.m_m4 * p.delta)))
+                            w_amb = true;
+                    }
+                    else
+                    {
+                        h_tR = p.t;
+                        if (h_tL < kEps0 && w_near(p.e, csearch.m_m3 * p.delta, std::fabs(p.e) + std::fabs(csearch.m_m3 * p.delta))) w_amb = true;
+                    }
+                }
+            }
+            for (tensor_size_t i = 0; i < bundle.m_size; ++i)
+                if (bundle.m_alphas(i) != 0.0 && std::fabs(bundle.m_alphas(i)) < 1e-9) w_amb = true; // delete_inactive: alpha < epsilon0
+        }
     };
     const auto calls_now = [&]() { return static_cast<long>(function.fcalls() + function.gcalls()); };
     const long calls_init = calls_now();
@@ -929,6 +983,10 @@ solver_state_t mirror_loop(const std::string& sid, const std::string& sname, con
     guarded = false;
     long local_ops = 0;
     long k         = 0;
+    long w_iters   = 0;
+    bool w_done    = false;
+    int  w_sstat   = 0;
+    const double w_miu0 = proximity.m_miu;
     double       best_seen = state.fx();
     const double f_start   = state.fx();
     while (function.fcalls() + function.gcalls() < max_evals)
@@ -939,6 +997,7 @@ solver_state_t mirror_loop(const std::string& sid, const std::string& sname, con
         const int    stale  = static_cast<int>(csearch.m_point.m_status);
         const double sfx0   = state.fx();
         passes.clear();
+        ++w_iters;
         in_search = true;
         const auto&     point  = csearch.search(bundle, proximity.miu(), max_evals, epsilon, logger);
         const double    t      = point.m_t;
@@ -1024,7 +1083,14 @@ solver_state_t mirror_loop(const std::string& sid, const std::string& sname, con
                         calls_now(), vh::hexf(state.fx()).c_str(), vh::hexf(proximity.m_miu).c_str(), mom.c_str());
             ++C.loop_lines;
         };
-        if (ret) { emit_li(); break; }
+        // stage WHOLE: the recorded decisions of this iteration (status returned, operands of every pass as the library saw them)
+        const auto w_rec = [&]()
+        {
+            std::string ps;
+            for (const auto& p : passes) { if (!ps.empty()) ps += "/"; ps += pass_str(p); }
+            w_its.push_back(std::to_string(static_cast<int>(status)) + "@" + vh::hexf(proximity.m_miu) + "@" + (ps.empty() ? "-" : ps));
+        };
+        if (ret) { w_done = true; w_sstat = sstat; w_rec(); emit_li(); break; }
 
         const auto px_line = [&](int kind, double miu_before)
         {
@@ -1058,6 +1124,8 @@ solver_state_t mirror_loop(const std::string& sid, const std::string& sname, con
                 if (!apply_append(sid, bundle, true, y, gy, fy)) { guarded = true; stop = true; }
                 else
                 {
+                    w_kps.push_back(g_last_keep);
+                    w_log.push_back(hv(y));
                     state.update(y, gy, fy);
                     // direct oracle: the centre value of RQB never increases (convex objective)
                     ++C.loop_oracles;
@@ -1086,9 +1154,13 @@ solver_state_t mirror_loop(const std::string& sid, const std::string& sname, con
                 const vector_t mx1  = x;
                 const auto  fx = function.vgrad(x, gx);
                 mom = vh::hexf(fx);
+                w_ev(x, gx, fx);
+                w_sqs.push_back(vh::hexf(rw));
                 if (!apply_append(sid, bundle, true, x, gx, fx)) { guarded = true; stop = true; }
                 else
                 {
+                    w_kps.push_back(g_last_keep);
+                    w_log.push_back(hv(x));
                     const bool better = state.update_if_better(x, gx, fx);
                     if (!better) sequence.reset();
                     // direct oracles: lambda >= 1 and growing, m_y = z, reset <=> no improvement, state = best of (previous, z, momentum point)
@@ -1112,6 +1184,7 @@ solver_state_t mirror_loop(const std::string& sid, const std::string& sname, con
         else if (status == csearch_status::null_step)
         {
             if (!apply_append(sid, bundle, false, y, gy, fy)) { guarded = true; stop = true; }
+            else w_kps.push_back(g_last_keep);
         }
         if (stop) break;
         if (status == csearch_status::max_iters)
@@ -1121,6 +1194,7 @@ solver_state_t mirror_loop(const std::string& sid, const std::string& sname, con
             if (state.fx() != sfx0 || proximity.m_miu != miu0 || calls_now() != calls1)
                 loop_fail(sid, "budget-exit-touched-state", "k=" + std::to_string(k) + " f: " + vh::hexf(sfx0) + " -> " + vh::hexf(state.fx()));
         }
+        w_rec();
         emit_li();
         best_seen = std::min(best_seen, state.fx());
         ++C.mirror_ops;
@@ -1129,6 +1203,26 @@ solver_state_t mirror_loop(const std::string& sid, const std::string& sname, con
         ++k;
     }
     g_eval_hook = nullptr;
+    if (!guarded && !w_bad && w_evs.size() <= 90 && g_whole_count[sid[0]] < g_whole_cap)
+    {
+        const auto joinv = [](const std::vector<std::string>& v, const char* sep)
+        {
+            std::string o;
+            for (const auto& e : v) { if (!o.empty()) o += sep; o += e; }
+            return o.empty() ? std::string("-") : o;
+        };
+        std::reverse(w_log.begin(), w_log.end());
+        std::printf("W %s solver=%s n=%d max=%d maxev=%d calls0=%ld cost=%ld miu0=%s eps0=%s tol=%s mdn=%s m1=%s m2=%s m3=%s m4=%s ip=%s ep=%s amb=%d | %s | %s | %s | %s | %s | "
+                    "exit=%s sstatus=%d iters=%ld calls=%ld sfx=%s size=%d | %s | %s | %s | %s\n",
+                    sid.c_str(), sname.c_str(), static_cast<int>(n), c.max_size, c.max_evals, calls_init, cost, vh::hexf(w_miu0).c_str(), vh::hexf(kEps0).c_str(),
+                    vh::hexf(w_tol).c_str(), vh::hexf(proximity.m_min_dot_nuv).c_str(), vh::hexf(csearch.m_m1).c_str(), vh::hexf(csearch.m_m2).c_str(),
+                    vh::hexf(csearch.m_m3).c_str(), vh::hexf(csearch.m_m4).c_str(), vh::hexf(csearch.m_interpol).c_str(), vh::hexf(csearch.m_extrapol).c_str(),
+                    w_amb ? 1 : 0, hv(x0).c_str(), joinv(w_evs, ";").c_str(), joinv(w_qps, ";").c_str(), joinv(w_kps, ";").c_str(), joinv(w_sqs, ",").c_str(),
+                    w_done ? "done" : "budget", w_sstat, w_iters, calls_now(), vh::hexf(state.fx()).c_str(), static_cast<int>(bundle.size()),
+                    hv(bundle.x()).c_str(), hv(state.x()).c_str(), joinv(w_log, ";").c_str(), joinv(w_its, ";").c_str());
+        ++g_whole_lines;
+        ++g_whole_count[sid[0]];
+    }
     state.update_calls();
     // direct oracle: evaluations performed beyond the budget (RQB: < one evaluation, FPBA: < one evaluation + the momentum point)
     ++C.loop_oracles;
@@ -1397,6 +1491,7 @@ int main(int argc, char** argv)
     }
     const bool small    = argc > 2 && std::string(argv[2]) == "small";
     const bool thorough = mode == "thorough";
+    if (thorough) g_whole_cap = 500;
     vh::rng_t  pre(vh::env_seed() ^ 0xC03C03C03C03ULL); // NB: seeding by seed * (splitmix increment) would only shift the stream
     vh::rng_t  master(pre.next() ^ (pre.next() << 1));
     const int  nsessions = thorough ? 1500 : 120;
